@@ -486,6 +486,75 @@ func (e *Engine) libCall(st *State, fr *Frame, name string, args []Val, c *ssa.C
 		return one(Sym(fresh("n"), 64), ErrV{NonNil: tFalse, ID: BVu(0, 64)})
 	case "fmt.Errorf", "errors.New":
 		return one(ErrV{NonNil: tTrue, ID: Sym(fresh("err"), 64)})
+	case "bytes.NewReader":
+		// a reader over the slice: the position is the only state
+		s := args[0].(SliceV)
+		id := st.newObj(&ReaderObj{Data: s, Pos: BVu(0, 64)})
+		return one(PtrObj{id})
+	case "(*bytes.Reader).Read":
+		// copies min(len(p), remaining) bytes; io.EOF exactly when nothing remains (and p is not empty)
+		r, id := e.readerOf(st, args[0])
+		p := args[1].(SliceV)
+		remaining := Sub(r.Data.Len, r.Pos)
+		n := Ite(SLt(remaining, p.Len), remaining, p.Len)
+		if !st.spec {
+			e.oblige(st, "frame:store-bytes", Or(Eq(p.Len, BVu(0, 64)), Not(ULt(p.Base, Add(alloc0, BVu(1, 64))))), "Reader.Read writes into pre-existing byte memory")
+		}
+		na := SymSort(fresh("read_arr"), byteArrSort)
+		srcArr := st.arrOf(r.Data.Base)
+		dstArr := st.arrOf(p.Base)
+		// the first n bytes are the reader's next n bytes, the rest of p is unchanged
+		st.assumeT(contentEq(na, p.Off, srcArr, Add(r.Data.Off, r.Pos), n))
+		k := BoundVar(fresh("k"), 64)
+		keep := Implies(Or(SLt(k, Add(p.Off, n)), Not(SLt(k, Add(p.Off, p.Len)))), Eq(Select(na, k, 8), Select(dstArr, k, 8)))
+		qf := &Term{Leaf: fresh("qf"), W: 0, QDef: Forall(k, keep)}
+		registerQFacts(qf, k, keep, []traceRead{{p.Base.String(), k}})
+		st.assumeT(qf)
+		st.setArr(p.Base, na)
+		delete(st.text, p.Base.String())
+		atEnd := And(Eq(remaining, BVu(0, 64)), Not(Eq(p.Len, BVu(0, 64))))
+		st.objs[id] = &ReaderObj{Data: r.Data, Pos: Add(r.Pos, n)}
+		return one(n, ErrV{NonNil: atEnd, ID: Sym(fresh2("eof"), 64)})
+	case "encoding/binary.Read":
+		// supported: reading one fixed-width unsigned integer, little endian, from a *bytes.Reader into a local
+		// variable. Enough bytes: the value, no error, the position advances; else an error (io.EOF /
+		// io.ErrUnexpectedEOF) and the variable keeps its value.
+		r, id := e.readerOf(st, args[0])
+		var order Val = args[1]
+		if iv, ok := order.(IfaceV); ok {
+			order = iv.V
+		}
+		if !strings.Contains(fmt.Sprintf("%v %T", order, order), "ittleEndian") {
+			if iv, ok := args[1].(IfaceV); !ok || iv.Tag == nil || !strings.Contains(iv.Tag.String(), "ittleEndian") {
+				fail("binary.Read: only binary.LittleEndian is modelled (got %v)", args[1])
+			}
+		}
+		var dst Val = args[2]
+		if iv, ok := dst.(IfaceV); ok {
+			dst = iv.V
+		}
+		pc, ok := dst.(PtrCell)
+		if !ok {
+			fail("binary.Read into %T (only pointers to local integers are modelled)", dst)
+		}
+		cur, ok := getPath(st.cells[pc.ID], pc.Path).(*Term)
+		if !ok || cur.W < 8 || cur.W%8 != 0 {
+			fail("binary.Read into a non-integer")
+		}
+		nb := cur.W / 8
+		enough := Not(SLt(Sub(r.Data.Len, r.Pos), BVu(uint64(nb), 64)))
+		var v *Term
+		for i := nb - 1; i >= 0; i-- {
+			b := st.readByte(r.Data, Add(r.Pos, BVu(uint64(i), 64)))
+			if v == nil {
+				v = b
+			} else {
+				v = Concat(v, b)
+			}
+		}
+		st.cells[pc.ID] = setPath(st.cells[pc.ID], pc.Path, Ite(enough, v, cur))
+		st.objs[id] = &ReaderObj{Data: r.Data, Pos: Ite(enough, Add(r.Pos, BVu(uint64(nb), 64)), r.Data.Len)}
+		return one(ErrV{NonNil: Not(enough), ID: Sym(fresh2("eof"), 64)})
 	case "bytes.NewBuffer":
 		s := args[0].(SliceV)
 		t, _ := e.textOf(st, s)
@@ -1312,4 +1381,23 @@ func needsFnVal(cc *ssa.CallCommon) bool {
 
 func sortName(s string) string {
 	return strings.NewReplacer("(", "", ")", "", " ", "_").Replace(s)
+}
+
+// ReaderObj: a *bytes.Reader — the slice it reads from and how far it has got.
+type ReaderObj struct {
+	Data SliceV
+	Pos  *Term
+}
+
+func (e *Engine) readerOf(st *State, v Val) (*ReaderObj, int) {
+	if iv, ok := v.(IfaceV); ok {
+		v = iv.V
+	}
+	if p, ok := v.(PtrObj); ok {
+		if r, ok := st.objs[p.ID].(*ReaderObj); ok {
+			return r, p.ID
+		}
+	}
+	fail("expected *bytes.Reader, got %T", v)
+	return nil, 0
 }
